@@ -1204,8 +1204,18 @@ theorem clearLinkedCache_bcoherent (e : BEnv T) (b : BState T) (i : Nat) (h : BC
 /-- **the code as it is (transitive sweep): every public call keeps every volume cache of the block current** —
 whatever the link structure (chains of any length) -/
 theorem bstep_bcoherent_transitive (e : BEnv T) (b : BState T) (op : BOp T) (htr : e.transitive = true)
+    (hlink : op.isSetLink = false ∨ e.linkClears = true)
     (h : BCoherent e b) : BCoherent e (bstep e b op).1 := by
   cases op with
+  | setLink i key j k =>
+    have hlc : e.linkClears = true := by
+      rcases hlink with h0 | h0
+      · cases h0
+      · exact h0
+    simp only [bstep, hlc, if_true]
+    split
+    · exact h
+    · exact edit_bcoherent_transitive e b i _ (fun _ => rfl) htr h
   | setTemp i t =>
     simp only [bstep]
     split
@@ -1250,12 +1260,25 @@ theorem bstep_bcoherent_transitive (e : BEnv T) (b : BState T) (op : BOp T) (htr
 /-- the code before fix b30c1b1: every public call keeps every volume cache of the block current while links are one
 level deep -/
 theorem bstep_bcoherent_coded_flat (e : BEnv T) (b : BState T) (op : BOp T) (htr : e.transitive = false)
+    (hlink : op.isSetLink = false ∨ e.linkClears = true)
     (hflat : FlatLinks ((bstep e b op).1.sys e)) (h : BCoherent e b) : BCoherent e (bstep e b op).1 := by
   have hsys : ∀ (b1 : BState T) (i : Nat), (b1.clearLinkedCache e i).sys e = sysOf e b1.comps := by
     intro b1 i
     unfold BState.clearLinkedCache BState.sys
     exact sysOf_clear e b1.comps _
   cases op with
+  | setLink i key j k =>
+    have hlc : e.linkClears = true := by
+      rcases hlink with h0 | h0
+      · cases h0
+      · exact h0
+    revert hflat
+    simp only [bstep, hlc, if_true]
+    split
+    · intro _; exact h
+    · intro hflat
+      rw [hsys] at hflat
+      exact edit_bcoherent_coded_flat e b i _ (fun _ => rfl) htr hflat h
   | setTemp i t =>
     revert hflat
     simp only [bstep]
@@ -1320,17 +1343,37 @@ def FlatAlong (e : BEnv T) : BState T → List (BOp T) → Prop
 
 /-- **any history, the code as it is (transitive sweep)**: all volume caches are current at the end -/
 theorem brun_bcoherent_transitive (e : BEnv T) (b : BState T) (ops : List (BOp T)) (htr : e.transitive = true)
+    (hlink : e.linkClears = true ∨ ∀ op ∈ ops, op.isSetLink = false)
     (h : BCoherent e b) : BCoherent e (brun e b ops).1 := by
   induction ops generalizing b with
   | nil => exact h
-  | cons op rest ih => exact ih _ (bstep_bcoherent_transitive e b op htr h)
+  | cons op rest ih =>
+    have h1 : op.isSetLink = false ∨ e.linkClears = true := by
+      rcases hlink with h0 | h0
+      · exact Or.inr h0
+      · exact Or.inl (h0 op (by simp))
+    have h2 : e.linkClears = true ∨ ∀ op ∈ rest, op.isSetLink = false := by
+      rcases hlink with h0 | h0
+      · exact Or.inl h0
+      · exact Or.inr (fun o ho => h0 o (List.mem_cons_of_mem _ ho))
+    exact ih _ h2 (bstep_bcoherent_transitive e b op htr h1 h)
 
 /-- any history, the code before fix b30c1b1, one-level links: all volume caches are current at the end -/
 theorem brun_bcoherent_coded_flat (e : BEnv T) (b : BState T) (ops : List (BOp T)) (htr : e.transitive = false)
+    (hlink : e.linkClears = true ∨ ∀ op ∈ ops, op.isSetLink = false)
     (hflat : FlatAlong e b ops) (h : BCoherent e b) : BCoherent e (brun e b ops).1 := by
   induction ops generalizing b with
   | nil => exact h
-  | cons op rest ih => exact ih _ hflat.2 (bstep_bcoherent_coded_flat e b op htr hflat.1 h)
+  | cons op rest ih =>
+    have h1 : op.isSetLink = false ∨ e.linkClears = true := by
+      rcases hlink with h0 | h0
+      · exact Or.inr h0
+      · exact Or.inl (h0 op (by simp))
+    have h2 : e.linkClears = true ∨ ∀ op ∈ rest, op.isSetLink = false := by
+      rcases hlink with h0 | h0
+      · exact Or.inl h0
+      · exact Or.inr (fun o ho => h0 o (List.mem_cons_of_mem _ ho))
+    exact ih _ h2 hflat.2 (bstep_bcoherent_coded_flat e b op htr h1 hflat.1 h)
 
 theorem bcoherent_of_empty (e : BEnv T) (b : BState T)
     (h : ∀ (j : Nat) (c : BComp T), b.comps[j]? = some c → c.vol = none) :
@@ -1395,7 +1438,7 @@ end BlockProps
 (id → bond.id, od → bond.od).  All three volumes cached; the fuel is heated. -/
 private def exBE (tr : Bool) : BEnv Rat :=
   { same := fun a b => decide (a = b), pi := 3, sqrt3 := 2, sqrtF := fun x => x, h := 10, maxArea := 200, sym := 1,
-    transitive := tr }
+    transitive := tr, linkClears := false }
 private def exSolid : Mat Rat := { kind := .solid, liquid := false, pct := fun t => t, rho := fun _ => 0 }
 private def exFluid : Mat Rat := { kind := .fluid, liquid := true, pct := fun _ => 0, rho := fun _ => 1 }
 private def exB : BState Rat :=
@@ -1426,7 +1469,7 @@ theorem coded_sweep_misses_chain :
     | n + 3, hj => simp [exB] at hj)
   have hw : ∀ tr, BCoherent (exBE tr) (exB0 tr) := fun tr =>
     getVolume_bcoherent _ _ 2 (getVolume_bcoherent _ _ 1 (getVolume_bcoherent _ _ 0 (h0 tr)))
-  refine ⟨hw false, ?_, bstep_bcoherent_transitive _ _ _ rfl (hw true)⟩
+  refine ⟨hw false, ?_, bstep_bcoherent_transitive _ _ _ rfl (Or.inl rfl) (hw true)⟩
   intro h
   have := cohB_of_bcoherent _ _ h
   revert this
@@ -1690,6 +1733,7 @@ theorem derivedArea_spec (e : BEnv T) (b : BState T) (h : BCoherent e b) (hd : D
 /-- **every public call keeps the derived shape's caches consistent with `derivedMustUpdate`** (given coherent
 sibling caches; a `DerivedShape.getVolume()` that raises is excluded: it leaves the flag reset over an old `p.area`) -/
 theorem bstep_dcoherent (e : BEnv T) (b : BState T) (op : BOp T) (h : BCoherent e b) (hd : DCoherent e b)
+    (hlink : op.isSetLink = false ∨ e.linkClears = true)
     (hok : op = .qDerivedVolume → (bstep e b op).2 ≠ none) : DCoherent e (bstep e b op).1 := by
   have hedit : ∀ (b1 : BState T) (i : Nat), DCoherent e (b1.clearLinkedCache e i) :=
     fun b1 i => dcoherent_of_stale e _ rfl
@@ -1698,6 +1742,15 @@ theorem bstep_dcoherent (e : BEnv T) (b : BState T) (op : BOp T) (h : BCoherent 
     obtain ⟨f1, f2, f3, f4, f5⟩ := getVolume_frame e b i
     exact dcoherent_frame e b _ f1 f2 f3 f4 f5 hd
   cases op with
+  | setLink i key j k =>
+    have hlc : e.linkClears = true := by
+      rcases hlink with h0 | h0
+      · cases h0
+      · exact h0
+    simp only [bstep, hlc, if_true]
+    split
+    · exact hd
+    · exact hedit _ i
   | setTemp i t =>
     simp only [bstep]
     split
@@ -1785,12 +1838,21 @@ cached volume is its current area × height and the derived shape's caches agree
 (`bvolume_eq_area_height`, `derived_closes_block`) volumes follow areas and the derived shape closes the block
 whatever was queried, heated, swapped or resized before -/
 theorem brun_invariants_transitive (e : BEnv T) (b : BState T) (ops : List (BOp T)) (htr : e.transitive = true)
+    (hlink : e.linkClears = true ∨ ∀ op ∈ ops, op.isSetLink = false)
     (h : BCoherent e b) (hd : DCoherent e b) (hok : DerivedOK e b ops) :
     BCoherent e (brun e b ops).1 ∧ DCoherent e (brun e b ops).1 := by
   induction ops generalizing b with
   | nil => exact ⟨h, hd⟩
   | cons op rest ih =>
-    exact ih _ (bstep_bcoherent_transitive e b op htr h) (bstep_dcoherent e b op h hd hok.1) hok.2
+    have h1 : op.isSetLink = false ∨ e.linkClears = true := by
+      rcases hlink with h0 | h0
+      · exact Or.inr h0
+      · exact Or.inl (h0 op (by simp))
+    have h2 : e.linkClears = true ∨ ∀ op ∈ rest, op.isSetLink = false := by
+      rcases hlink with h0 | h0
+      · exact Or.inl h0
+      · exact Or.inr (fun o ho => h0 o (List.mem_cons_of_mem _ ho))
+    exact ih _ h2 (bstep_bcoherent_transitive e b op htr h1 h) (bstep_dcoherent e b op h hd h1 hok.1) hok.2
 
 end DerivedProps
 
@@ -1805,6 +1867,401 @@ example := derived_closes_block (exBE true) exB
     | 2, hj => simp [exB] at hj; rw [← hj]
     | n + 3, hj => simp [exB] at hj))
   (dcoherent_of_stale _ _ rfl) (by decide +kernel)
+
+
+/-! ### `setLink` after construction -/
+section LinkProps
+variable {T : Type}
+
+/-- the stored dimensions of every component -/
+def BState.dimsOf (b : BState T) : List (List (String × Dim)) := b.comps.map (fun c => c.dims)
+
+theorem dimsOf_clear (e : BEnv T) (b : BState T) (i : Nat) : (b.clearLinkedCache e i).dimsOf = b.dimsOf := by
+  unfold BState.clearLinkedCache BState.dimsOf
+  apply List.ext_getElem?
+  intro j
+  simp only [List.getElem?_map, List.getElem?_mapIdx]
+  cases b.comps[j]? with
+  | none => rfl
+  | some c => simp only [Option.map_some]; split <;> (split <;> rfl)
+
+theorem dimsOf_modify (b : BState T) (i : Nat) (f : BComp T → BComp T) (hf : ∀ c, (f c).dims = c.dims) :
+    (b.modify i f).dimsOf = b.dimsOf := by
+  unfold BState.modify BState.dimsOf
+  cases hc : b.comps[i]? with
+  | none => rfl
+  | some c =>
+    simp only []
+    apply List.ext_getElem?
+    intro k
+    simp only [List.getElem?_map, List.getElem?_set]
+    by_cases hk : i = k
+    · subst hk
+      obtain ⟨hlt, heq⟩ := List.getElem?_eq_some_iff.mp hc
+      subst heq
+      simp [hlt, hf]
+    · simp [hk]
+
+theorem dimsOf_getVolume (e : BEnv T) (b : BState T) (i : Nat) : (b.getVolume e i).1.dimsOf = b.dimsOf := by
+  unfold BState.getVolume
+  cases hc : b.comps[i]? with
+  | none => rfl
+  | some c =>
+    simp only []
+    cases c.vol with
+    | some v => rfl
+    | none =>
+      simp only []
+      cases b.area e i with
+      | none => rfl
+      | some a =>
+        have := dimsOf_modify b i (fun c => { c with vol := some (a * e.h) }) (fun _ => rfl)
+        unfold BState.modify at this
+        simp only [hc] at this
+        exact this
+
+private theorem dimsOf_foldl (e : BEnv T) (l : List Nat) : ∀ acc : BState T × Option Rat,
+    (l.foldl (fun (acc : BState T × Option Rat) i =>
+        ((acc.1.getVolume e i).1,
+         match acc.2, (acc.1.getVolume e i).2 with
+         | some s, some v => some (s + v)
+         | _, _ => none)) acc).1.dimsOf = acc.1.dimsOf := by
+  induction l with
+  | nil => intro acc; rfl
+  | cons i l ih => intro acc; simp only [List.foldl_cons]; rw [ih]; exact dimsOf_getVolume e acc.1 i
+
+theorem dimsOf_derive (e : BEnv T) (b : BState T) : (b.deriveVolumeAndArea e).1.dimsOf = b.dimsOf := by
+  have hs : (b.sibVolumes e).1.dimsOf = b.dimsOf := dimsOf_foldl e _ (b, some 0)
+  unfold BState.deriveVolumeAndArea
+  cases (b.sibVolumes e).2 with
+  | none => exact hs
+  | some sv => simp only []; split <;> exact hs
+
+/-- a history of temperature changes, material swaps and reads only -/
+def BThermal : List (BOp T) → Prop
+  | [] => True
+  | .setDim _ _ _ _ :: _ => False
+  | .setDimRetain _ _ _ _ :: _ => False
+  | .setLink _ _ _ _ :: _ => False
+  | _ :: rest => BThermal rest
+
+theorem dimsOf_thermal_step (e : BEnv T) (b : BState T) (op : BOp T) (h : BThermal [op]) :
+    (bstep e b op).1.dimsOf = b.dimsOf := by
+  cases op with
+  | setDim i k v c => exact absurd h (by simp [BThermal])
+  | setDimRetain i k v c => exact absurd h (by simp [BThermal])
+  | setLink i k j k2 => exact absurd h (by simp [BThermal])
+  | setTemp i t =>
+    simp only [bstep]
+    split
+    · rfl
+    · rw [dimsOf_clear]; exact dimsOf_modify b i _ (fun _ => rfl)
+  | setMat i m =>
+    simp only [bstep]
+    split
+    · rfl
+    · rw [dimsOf_clear]; exact dimsOf_modify b i _ (fun _ => rfl)
+  | qDim i k c => rfl
+  | qArea i => rfl
+  | qVolume i => exact dimsOf_getVolume e b i
+  | qMass i =>
+    simp only [bstep]
+    split
+    · rfl
+    · exact dimsOf_getVolume e b i
+  | qDerivedArea =>
+    simp only [bstep, BState.derivedArea]
+    split
+    · exact dimsOf_derive e b
+    · rfl
+  | qDerivedVolume =>
+    simp only [bstep, BState.derivedVolume]
+    have h1 : (if b.stale then ({ b with dVol := none, stale := false } : BState T) else b).dimsOf = b.dimsOf := by
+      split <;> rfl
+    generalize (if b.stale then ({ b with dVol := none, stale := false } : BState T) else b) = b1 at h1
+    cases b1.dVol with
+    | some v => exact h1
+    | none =>
+      simp only []
+      have hd := dimsOf_derive e b1
+      cases (b1.deriveVolumeAndArea e).2 with
+      | none => simp only []; rw [hd, h1]
+      | some rem => simp only []; show (b1.deriveVolumeAndArea e).1.dimsOf = _; rw [hd, h1]
+
+theorem dimsOf_thermal (e : BEnv T) (b : BState T) (ops : List (BOp T)) (h : BThermal ops) :
+    (brun e b ops).1.dimsOf = b.dimsOf := by
+  induction ops generalizing b with
+  | nil => rfl
+  | cons op rest ih =>
+    have h1 : BThermal [op] := by cases op <;> simp_all [BThermal]
+    have h2 : BThermal rest := by cases op <;> simp_all [BThermal]
+    simp only [brun]
+    rw [ih _ h2, dimsOf_thermal_step e b op h1]
+
+/-- what `getDimension` sees of component `i`'s stored dimensions is `dimsOf` -/
+theorem sys_dim?_of_dimsOf (e : BEnv T) (b : BState T) (i : Nat) (key : String) (ds : List (String × Dim))
+    (h : b.dimsOf[i]? = some ds) :
+    ∃ c, (b.sys e)[i]? = some c ∧ c.dim? key = (ds.find? (fun p => p.1 = key)).map (·.2) := by
+  unfold BState.dimsOf at h
+  simp only [List.getElem?_map] at h
+  cases hc : b.comps[i]? with
+  | none => simp [hc] at h
+  | some c =>
+    simp only [hc, Option.map_some, Option.some.injEq] at h
+    refine ⟨c.toComp e, by simp [BState.sys, sysOf, hc], ?_⟩
+    simp [Comp.dim?, BComp.toComp, h]
+
+/-- **`setLink` establishes the link whatever the dimension held before** — a number or a link, equal to the new
+target's current dimension or not: right after the call the stored dimension IS `link j k` -/
+theorem setLink_establishes (e : BEnv T) (b : BState T) (i j : Nat) (key k : String) (c : BComp T)
+    (hc : b.comps[i]? = some c) (hkey : (c.dims.find? (fun p => p.1 = key)).isSome) :
+    ∃ ds, (bstep e b (.setLink i key j k)).1.dimsOf[i]? = some ds ∧
+      (ds.find? (fun p => p.1 = key)).map (·.2) = some (Dim.link j k) := by
+  refine ⟨c.dims.map (fun p => if p.1 = key then (p.1, Dim.link j k) else p), ?_, ?_⟩
+  · simp only [bstep, hc]
+    have hm : (b.modify i (fun c => { c with dims := c.dims.map (fun p => if p.1 = key then (p.1, Dim.link j k) else p) })).dimsOf[i]?
+        = some (c.dims.map (fun p => if p.1 = key then (p.1, Dim.link j k) else p)) := by
+      obtain ⟨hlt, heq⟩ := List.getElem?_eq_some_iff.mp hc
+      subst heq
+      simp [BState.modify, BState.dimsOf, hlt]
+    split
+    · rw [dimsOf_clear]; exact hm
+    · exact hm
+  · generalize c.dims = l at hkey
+    induction l with
+    | nil => simp at hkey
+    | cons p l ih =>
+      by_cases hp : p.1 = key
+      · simp [hp]
+      · have : (List.find? (fun p => decide (p.1 = key)) l).isSome := by simpa [List.find?, hp] using hkey
+        simpa [List.find?, hp] using ih this
+
+/-- **after `setLink`, through any later history of temperature changes, material swaps and reads (of the holder, the
+target, or anything else), the dimension equals the target's CURRENT dimension** — hot and cold -/
+theorem setLink_follows (e : BEnv T) (b : BState T) (i j : Nat) (key k : String) (c : BComp T)
+    (hc : b.comps[i]? = some c) (hkey : (c.dims.find? (fun p => p.1 = key)).isSome)
+    (ops : List (BOp T)) (hops : BThermal ops) (cold : Bool) :
+    (brun e (bstep e b (.setLink i key j k)).1 ops).1.dim e i key cold =
+      getDimension ((brun e (bstep e b (.setLink i key j k)).1 ops).1.sys e)
+        (((brun e (bstep e b (.setLink i key j k)).1 ops).1.sys e).length) j k cold := by
+  obtain ⟨ds, hds, hlink⟩ := setLink_establishes e b i j key k c hc hkey
+  rw [← dimsOf_thermal e _ ops hops] at hds
+  obtain ⟨c', hc', hd'⟩ := sys_dim?_of_dimsOf e _ i key ds hds
+  rw [hlink] at hd'
+  unfold BState.dim
+  exact linked_dim_follows _ _ i j key k c' cold hc' hd'
+
+end LinkProps
+
+section LinkProps2
+variable {T : Type}
+
+/-- what component `i` stores for dimension `key` -/
+def BState.slot (b : BState T) (i : Nat) (key : String) : Option Dim :=
+  (b.dimsOf[i]?).bind (fun ds => (ds.find? (fun p => p.1 = key)).map (·.2))
+
+/-- calls that cannot rewrite slot `(i, key)`: everything but `setDimension` / `setLink` on that very slot and
+`setDimension(retainLink=True)` (which writes through links) -/
+def BOp.leaves (i : Nat) (key : String) : BOp T → Bool
+  | .setDim i' key' _ _ => !(i' == i && key' == key)
+  | .setLink i' key' _ _ => !(i' == i && key' == key)
+  | .setDimRetain _ _ _ _ => false
+  | _ => true
+
+private theorem find_map_other (l : List (String × Dim)) (key key' : String) (d : Dim) (h : key' ≠ key) :
+    ((l.map (fun p => if p.1 = key' then (p.1, d) else p)).find? (fun p => p.1 = key)).map (·.2)
+      = (l.find? (fun p => p.1 = key)).map (·.2) := by
+  induction l with
+  | nil => rfl
+  | cons p l ih =>
+    rw [List.map_cons, List.find?_cons, List.find?_cons]
+    by_cases hp' : p.1 = key'
+    · have hp : ¬ p.1 = key := by rw [hp']; exact h
+      rw [if_pos hp']
+      have h1 : decide ((p.1, d).1 = key) = false := by simpa using hp
+      have h2 : decide (p.1 = key) = false := by simpa using hp
+      rw [h1]
+      exact ih
+    · rw [if_neg hp']
+      by_cases hp : p.1 = key
+      · have h2 : decide (p.1 = key) = true := by simpa using hp
+        rw [h2]
+      · have h2 : decide (p.1 = key) = false := by simpa using hp
+        rw [h2]
+        exact ih
+
+private theorem slot_of_dimsOf (b b' : BState T) (h : b'.dimsOf = b.dimsOf) (i : Nat) (key : String) :
+    b'.slot i key = b.slot i key := by unfold BState.slot; rw [h]
+
+private theorem slot_modify (b : BState T) (i' i : Nat) (key : String) (f : BComp T → BComp T)
+    (hf : ∀ c, b.comps[i']? = some c → i' = i →
+      ((f c).dims.find? (fun p => p.1 = key)).map (·.2) = (c.dims.find? (fun p => p.1 = key)).map (·.2)) :
+    (b.modify i' f).slot i key = b.slot i key := by
+  unfold BState.slot BState.modify BState.dimsOf
+  cases hc : b.comps[i']? with
+  | none => rfl
+  | some c =>
+    simp only [List.getElem?_map, List.getElem?_set]
+    by_cases hi : i' = i
+    · subst hi
+      obtain ⟨hlt, heq⟩ := List.getElem?_eq_some_iff.mp hc
+      have := hf c hc rfl
+      subst heq
+      simp [hlt, this]
+    · simp [hi]
+
+private theorem setDimension_dims (c c' : Comp) (key' : String) (v : Rat) (cold : Bool)
+    (h : setDimension c key' v cold = some c') :
+    ∃ q, c'.dims = c.dims.map (fun p => if p.1 = key' then (p.1, Dim.val q) else p) := by
+  unfold setDimension at h
+  simp only [] at h
+  cases hs : (if cold = true then some v
+      else if c.expDims.contains key' = true then Option.map (fun f => v / f) c.factor else some v) with
+  | none => rw [hs] at h; cases h
+  | some q =>
+    rw [hs] at h
+    simp only [Option.map_some, Option.some.injEq] at h
+    exact ⟨q, by rw [← h]⟩
+
+/-- a call that leaves slot `(i, key)` alone leaves it alone -/
+theorem slot_kept (e : BEnv T) (b : BState T) (op : BOp T) (i : Nat) (key : String)
+    (h : op.leaves i key = true) : (bstep e b op).1.slot i key = b.slot i key := by
+  have hthermal : ∀ op' : BOp T, BThermal [op'] → (bstep e b op').1.slot i key = b.slot i key :=
+    fun op' h' => slot_of_dimsOf _ _ (dimsOf_thermal_step e b op' h') i key
+  cases op with
+  | setDimRetain i' k v c => cases h
+  | setDim i' key' v cold =>
+    simp only [BOp.leaves, Bool.not_eq_true', Bool.and_eq_false_iff, beq_eq_false_iff_ne] at h
+    simp only [bstep]
+    split
+    · rfl
+    · rename_i c hc
+      split
+      · rfl
+      · rename_i c' hset
+        rw [slot_of_dimsOf _ _ (dimsOf_clear e _ i')]
+        apply slot_modify
+        intro c0 hc0 hi
+        rw [hc] at hc0
+        cases hc0
+        obtain ⟨q, hq⟩ := setDimension_dims _ _ _ _ _ hset
+        simp only []
+        rw [hq]
+        have hk : key' ≠ key := by
+          rcases h with h | h
+          · exact absurd hi h
+          · exact h
+        exact find_map_other c.dims key key' _ hk
+  | setLink i' key' j k =>
+    simp only [BOp.leaves, Bool.not_eq_true', Bool.and_eq_false_iff, beq_eq_false_iff_ne] at h
+    simp only [bstep]
+    split
+    · rfl
+    · have hm : (b.modify i' (fun c => { c with dims := c.dims.map (fun p => if p.1 = key' then (p.1, Dim.link j k) else p) })).slot i key
+          = b.slot i key := by
+        apply slot_modify
+        intro c0 _ hi
+        have hk : key' ≠ key := by
+          rcases h with h | h
+          · exact absurd hi h
+          · exact h
+        exact find_map_other c0.dims key key' _ hk
+      split
+      · rw [slot_of_dimsOf _ _ (dimsOf_clear e _ i')]; exact hm
+      · exact hm
+  | setTemp i' t => exact hthermal _ (by simp [BThermal])
+  | setMat i' m => exact hthermal _ (by simp [BThermal])
+  | qDim i' k c => rfl
+  | qArea i' => rfl
+  | qVolume i' => exact hthermal _ (by simp [BThermal])
+  | qMass i' => exact hthermal _ (by simp [BThermal])
+  | qDerivedArea => exact hthermal _ (by simp [BThermal])
+  | qDerivedVolume => exact hthermal _ (by simp [BThermal])
+
+/-- a history none of whose calls can rewrite slot `(i, key)` -/
+def LeavesSlot (i : Nat) (key : String) (ops : List (BOp T)) : Prop := ∀ op ∈ ops, op.leaves i key = true
+
+theorem slot_kept_run (e : BEnv T) (b : BState T) (ops : List (BOp T)) (i : Nat) (key : String)
+    (h : LeavesSlot i key ops) : (brun e b ops).1.slot i key = b.slot i key := by
+  induction ops generalizing b with
+  | nil => rfl
+  | cons op rest ih =>
+    simp only [brun]
+    rw [ih _ (fun o ho => h o (List.mem_cons_of_mem _ ho)), slot_kept e b op i key (h op (by simp))]
+
+/-- **after `setLink`, through ANY later history that does not itself rewrite that dimension** — temperature changes,
+material swaps, hot and cold `setDimension` of the target or of anything else, further `setLink`s elsewhere, reads —
+**the dimension equals the target's CURRENT dimension**, whatever it held before the call (a number or a link, equal
+to the target's value or not) -/
+theorem setLink_follows_any (e : BEnv T) (b : BState T) (i j : Nat) (key k : String) (c : BComp T)
+    (hc : b.comps[i]? = some c) (hkey : (c.dims.find? (fun p => p.1 = key)).isSome)
+    (ops : List (BOp T)) (hops : LeavesSlot i key ops) (cold : Bool) :
+    (brun e (bstep e b (.setLink i key j k)).1 ops).1.dim e i key cold =
+      getDimension ((brun e (bstep e b (.setLink i key j k)).1 ops).1.sys e)
+        (((brun e (bstep e b (.setLink i key j k)).1 ops).1.sys e).length) j k cold := by
+  obtain ⟨ds, hds, hlink⟩ := setLink_establishes e b i j key k c hc hkey
+  have hslot : (bstep e b (.setLink i key j k)).1.slot i key = some (Dim.link j k) := by
+    unfold BState.slot; rw [hds]; exact hlink
+  rw [← slot_kept_run e _ ops i key hops] at hslot
+  unfold BState.slot at hslot
+  cases hd : (brun e (bstep e b (.setLink i key j k)).1 ops).1.dimsOf[i]? with
+  | none => rw [hd] at hslot; cases hslot
+  | some ds' =>
+    rw [hd] at hslot
+    simp only [Option.bind_some] at hslot
+    obtain ⟨c', hc', hd'⟩ := sys_dim?_of_dimsOf e _ i key ds' hd
+    rw [hslot] at hd'
+    unfold BState.dim
+    exact linked_dim_follows _ _ i j key k c' cold hc' hd'
+
+end LinkProps2
+
+/-! `setLink` without a cache sweep (the code before fix a226651, `linkClears = false`): a holder whose volume is cached
+and whose old value differs from the new target's dimension kept the stale volume; with the sweep (the code as it is)
+it does not — the repaired defect `volume-stale-after-setlink`, stated exactly -/
+private def exLE (lc : Bool) : BEnv Rat :=
+  { same := fun a b => decide (a = b), pi := 3, sqrt3 := 2, sqrtF := fun x => x, h := 10, maxArea := 200, sym := 1,
+    transitive := true, linkClears := lc }
+private def exLB : BState Rat :=
+  { comps := [
+      { mat := exSolid, tin := 0, temp := 0, nd := [1], w := [1], shape := some .Circle,
+        dims := [("od", .val 2), ("id", .val 0), ("mult", .val 1)], vol := none },
+      { mat := exFluid, tin := 0, temp := 0, nd := [1], w := [1], shape := some .Circle,
+        dims := [("od", .val 4), ("id", .val 1), ("mult", .val 1)], vol := none }],
+    stale := true, dArea := none, dVol := none }
+
+theorem setLink_needs_sweep :
+    ¬ BCoherent (exLE false) (brun (exLE false) exLB [.qVolume 1, .setLink 1 "id" 0 "od"]).1 ∧
+    BCoherent (exLE true) (brun (exLE true) exLB [.qVolume 1, .setLink 1 "id" 0 "od"]).1 := by
+  constructor
+  · intro h
+    have := cohB_of_bcoherent _ _ h
+    revert this
+    decide +kernel
+  · apply brun_bcoherent_transitive _ _ _ rfl (Or.inl rfl)
+    apply bcoherent_of_empty
+    intro j c hj
+    match j, hj with
+    | 0, hj => simp [exLB] at hj; rw [← hj]
+    | 1, hj => simp [exLB] at hj; rw [← hj]
+    | n + 2, hj => simp [exLB] at hj
+
+/-- non-vacuity of `setLink_follows`: value coincidence (`id = 2 = fuel.od`) at link time, then the fuel is heated
+(pct 0 -> 100: factor 2): the bond's inner diameter follows to 4 -/
+private def exLB2 : BState Rat :=
+  { comps := [
+      { mat := exSolid, tin := 0, temp := 0, nd := [1], w := [1], shape := some .Circle,
+        dims := [("od", .val 2), ("id", .val 0), ("mult", .val 1)], vol := none },
+      { mat := exFluid, tin := 0, temp := 0, nd := [1], w := [1], shape := some .Circle,
+        dims := [("od", .val 4), ("id", .val 2), ("mult", .val 1)], vol := none }],
+    stale := true, dArea := none, dVol := none }
+
+example : (brun (exLE false) (bstep (exLE false) exLB2 (.setLink 1 "id" 0 "od")).1
+    [.setTemp 0 100, .qVolume 1]).1.dim (exLE false) 1 "id" false = some 4 := by
+  decide +kernel
+
+example := setLink_follows (exLE false) exLB2 1 0 "id" "od" _ rfl (by decide) [.setTemp 0 100, .qVolume 1]
+  (by simp [BThermal]) false
 
 
 end ArmiVerif.Thermal
